@@ -36,7 +36,7 @@ type c07Scenario struct {
 func c07Gen(c *Ctx) *c07Scenario {
 	g := c.G
 	sc := &c07Scenario{}
-	sc.Shape = []string{"influx", "log", "alert", "loopback", "fork", "join", "failnode", "union", "batch"}[g.Intn(9)]
+	sc.Shape = []string{"influx", "log", "alert", "loopback", "fork", "join", "failnode", "union", "batch", "failnode2"}[g.Intn(10)]
 	sc.Waiter = g.Bool()
 	sc.InfluxBuf = []int{1000, 1, 2, 5}[g.Intn(4)]
 	sc.FlushMs = []int{10000, 1, 50}[g.Intn(3)]
@@ -53,7 +53,7 @@ func c07Gen(c *Ctx) *c07Scenario {
 	}
 	sc.StopAfter = g.Intn(total + 1)
 	sc.Stop = []string{"stop", "delete", "close"}[g.Intn(3)]
-	sc.Immediate = g.Chance(1, 8) || sc.Shape == "failnode"
+	sc.Immediate = g.Chance(1, 8) || sc.Shape == "failnode" || sc.Shape == "failnode2"
 	if sc.Shape == "loopback" && sc.Stop == "close" {
 		sc.Stop = "stop"
 	}
@@ -85,6 +85,20 @@ func c07Gen(c *Ctx) *c07Scenario {
 		sc.ScriptB = "stream\n    |from().measurement('m')\n    |log().prefix('B/0')\n"
 	case "fork":
 		sc.Script = "var s = stream\n    |from().measurement('m')\n    |log().prefix('A/in')\ns\n    |where(lambda: \"v\" >= 0)\n    " + out(0) + "\ns\n    |log().prefix('A/0')\ns\n    " + alert + "\n"
+	case "failnode2":
+		// a node in the middle fails (combine refuses more than max combinations once three points share a rounded
+		// time) while its sibling feeds the same union / join and an output node sits below: everything must still end
+		bad := "var bad = s\n    |combine(lambda: TRUE, lambda: TRUE).as('a', 'b').tolerance(10s).max(1)\n"
+		good := "var good = s\n    |where(lambda: \"v\" >= 0)\n"
+		head := "var s = stream\n    |from().measurement('m')\n    |log().prefix('A/in')\n"
+		switch g.Intn(3) {
+		case 0:
+			sc.Script = head + bad + good + "bad\n    |union(good)\n    " + out(0) + "\n"
+		case 1:
+			sc.Script = head + bad + good + "good\n    |join(bad).as('g', 'b').tolerance(1s).fill(0)\n    |log().prefix('A/0')\n"
+		default:
+			sc.Script = head + bad + good + "bad\n    |window().period(2s).every(2s)\n    |count('a.v')\n    " + out(0) + "\ngood\n    |stats(10ms)\n    |log().prefix('A/stats')\n"
+		}
 	case "union":
 		// two parents that are at different timestamps when the stop arrives: what the union holds back for the one
 		// that is behind is owed to the sink all the same
@@ -279,7 +293,15 @@ func runC07(c *Ctx) Verdict {
 		v.Shape = shape
 		return v
 	}
-	if sc.Shape == "failnode" || sc.Shape == "batch" {
+	if sc.Shape == "failnode" || sc.Shape == "failnode2" {
+		for _, e := range d.Sinks.Errs {
+			if strings.Contains(e, "node failed") {
+				c.Counters["probe.node_failed_before_stop"]++
+				break
+			}
+		}
+	}
+	if sc.Shape == "failnode" || sc.Shape == "failnode2" || sc.Shape == "batch" {
 		// a failed task owes its outputs nothing (and what a batch task owes is the subject of C16); it must have terminated (checked above)
 		return Pass()
 	}
@@ -437,7 +459,7 @@ func init() {
 		ID:  "C07",
 		Run: runC07,
 		Rule: "case = one of 7 pipeline shapes: a task one of whose branches fails on the first point while a timer-driven stats branch and an influxDBOut branch go on (termination only), or 6 shapes ending in real output nodes (influxDBOut with seeded buffer/flushInterval, alert->topic->bufHandler->recording handler on a named topic and, in half of the cases, also on the node's anonymous topic (closed when the node ends), kapacitorLoopback into a second task, log sink, 3-way fork, self-join) " +
-			"(round 3) two more shapes: a union of two from() nodes fed by different writers (its parents are at different timestamps when the stop arrives), and a batch task (every 500ms/1s, aligned or cron, query latency 0-2.6s; termination only) stopped after 0-4s; in half of all cases a goroutine sits in ExecutingTask.Wait() for the life of the task as the task store's does; " +
+			"a second failing-node shape (combine refusing more than max combinations, in front of a union / a join with a healthy sibling / a window with an output below; termination only); (round 3) two more shapes: a union of two from() nodes fed by different writers (its parents are at different timestamps when the stop arrives), and a batch task (every 500ms/1s, aligned or cron, query latency 0-2.6s; termination only) stopped after 0-4s; in half of all cases a goroutine sits in ExecutingTask.Wait() for the life of the task as the task store's does; " +
 			"x 1-3 concurrent HTTP writers (1-30/120 points each) x stop action (StopTask/DeleteTask/TaskMaster.Close) issued after a seeded number of acknowledged writes x slow outputs x one seeded schedule/knob set; " +
 			"non-trivial = at least one point was acknowledged before the stop request; distinct = distinct (scenario, interleaving signature) pairs",
 		Real:        []string{"services/httpd Handler", "TaskMaster (WritePoints, forkPoint, StopTask/DeleteTask/Close/Drain)", "ExecutingTask.stop, node.start/stop/Wait", "StreamNode, FromNode, EvalNode, WhereNode, JoinNode, LogNode, InfluxDBOutNode + writeBuffer, AlertNode, KapacitorLoopbackNode", "edge package", "services/alert + alert.Topics + bufHandler"},
